@@ -13,6 +13,9 @@ THEOREMS = [
     "Spowtd.minimiser_unique_mod_shift",
     "Spowtd.solveOffsets_stationary",
     "Spowtd.singleton_levels_irrelevant",
+    "Spowtd.solveOffsets_total",
+    "Spowtd.minimiser_exists",
+    "Spowtd.singular_only_if_disconnected",
 ]
 TRUSTED_BASE = [
     "Lean 4.33 kernel; axioms propext, Classical.choice, Quot.sound only (audited per theorem on every run)",
@@ -165,7 +168,48 @@ def run_tables(ctx, n):
                 ctx.corr_break(ob, {"input": dict(inp, table=kind), "impl": offsets, "model": mod})
 
 
+def run_many_intervals(ctx, n_spells):
+    """thousands of intervals in one curve (a least-squares problem of thousands of unknowns and a design matrix of
+    hundreds of megabytes): the exact solver of the model is not run at this size; the stored offsets are certified
+    by the vanishing of every interval's residual sum (theorem stationary_is_minimiser)"""
+    ob = "offsets stored by `spowtd recession` on thousands of intervals have vanishing residual sums (hence minimise)"
+    rows, s, j, level = P.many_spells_rows(ctx.rng, n_spells)
+    w = P.run_workflow(ctx, rows, s, j, 1.0, steps=("load", "classify", "grid", "recession"))
+    t, st = w["tables"], w["status"]
+    inp = {"record": {"kind": "many short dry spells", "n_spells": n_spells, "seed": ctx.seed, "samples": len(level)}, "zeta_step": 1.0}
+    ctx.case(("many", n_spells, len(level)), True)
+    if any(st.get(k, ("x",))[0] != "ok" for k in ("load", "classify", "grid", "recession")):
+        ctx.violation("impl-violation", "c05Holds", {"input": inp, "impl": {k: list(v) for k, v in st.items()}, "oracle": {
+            "name": "c05Holds", "result": False, "witness": {"why": "the workflow failed on a long record", "status": {k: list(v) for k, v in st.items()}}}})
+        return
+    mapping, offsets, keys = tables_mapping("recession", t)
+    ctx.count("many_intervals_unknowns", len(keys))
+    ctx.count("many_intervals_crossings", sum(len(v) for _k, v in mapping))
+    # residual sums exactly, in one pass over the crossings (the model's residualSum, which scans the mapping once per
+    # series, is quadratic at this size)
+    off = {s_: Fraction(o) for s_, o in offsets}
+    sums = {s_: Fraction(0) for s_ in off}
+    for _k, v in mapping:
+        shifted = [(s_, off[s_] + Fraction(x)) for s_, x in v]
+        mean = sum(y for _s, y in shifted) / len(shifted)
+        for s_, y in shifted:
+            sums[s_] += y - mean
+    res = {"residuals": [[s_, r] for s_, r in sums.items()]}
+    scale = max([abs(Fraction(x[1])) for _k, v in mapping for x in v] + [Fraction(1)])
+    worst = max([abs(Fraction(r)) for _s, r in res["residuals"]] + [Fraction(0)])
+    ctx.count("many_intervals_worst_residual_sum_over_scale_x1e12", int(worst / scale * 10**12))
+    ok = worst <= Fraction(1, 10**6) * scale
+    ctx.obligation(ob, ok)
+    if not ok:
+        bad = sorted(((abs(Fraction(r)), keys[s_]) for s_, r in res["residuals"]), reverse=True)[:3]
+        ctx.violation("impl-violation", "c05Holds", {"input": inp, "impl": {"offsets": offsets[:5]}, "oracle": {
+            "name": "c05Holds", "result": False,
+            "witness": {"why": "an interval's residuals against the master curve do not sum to zero",
+                        "worst_residual_sums": [[e, float(r)] for r, e in bad], "scale_of_crossing_values": float(scale)}}})
+
+
 def run(ctx):
+    run_many_intervals(ctx, ctx.rng.randint(4700, 5200) if ctx.tier == "quick" else ctx.rng.randint(5000, 7000))
     if ctx.tier == "quick":
         run_find_offsets(ctx, 300)
         run_tables(ctx, 20)
